@@ -89,6 +89,7 @@ let string_of_err = function
   | ENoDict -> "NoDictError"
   | EDictUpdate -> "DictUpdateError"
   | EAttr n -> "BadObject " ^ string_of_name n
+  | EUB -> "UB"
   | EOther -> "Other"
 
 (* instantiation of the section variables: atoms and C values are integer tokens *)
@@ -105,7 +106,8 @@ let string_of_obj (o : (z, z) obj) =
       (match get o.o_slots m.m_name with
        | None -> "?"
        | Some (SObj p) -> "o" ^ string_of_pv p
-       | Some (SC c) -> "c" ^ string_of_z c)) ms in
+       | Some (SC c) -> "c" ^ string_of_z c
+       | Some SDangling -> "dangling")) ms in
   "O " ^ (if slots = [] then "-" else String.concat "," slots) ^ " " ^ string_of_dict o.o_dict
 
 let head_id (h : hierarchy) = match h with c :: _ -> string_of_n c.c_id | [] -> "?"
